@@ -177,6 +177,51 @@ def pipe_battery():
         fails.append('pipe client->server: objects changed or out of order')
 
 
+def _pipe_pair_end(kind, path, tag, n):
+    end = (pipe.Server if kind == 'server' else pipe.Client)(path)
+    # rendezvous: talk only once all four ends exist, so that the two pairs are alive at the same time
+    d = os.path.dirname(path)
+    open(os.path.join(d, f'ready-{tag}-{kind}'), 'w').close()
+    deadline = time.time() + 20
+    while len([f for f in os.listdir(d) if f.startswith('ready-')]) < 4 and time.time() < deadline:
+        time.sleep(0.01)
+    out = []
+    for i in range(n):
+        if kind == 'server':
+            end.send((tag, 's2c', i))
+            out.append(end.recv())
+        else:
+            out.append(end.recv())
+            end.send((tag, 'c2s', i))
+    return out
+
+
+def two_pipes_one_directory():
+    """two pipe pairs alive at once in ONE directory, with names that differ only after the last dot: each pair keeps to its own FIFOs"""
+    n = 30
+    d = os.path.join(tmp, 'pipes2')
+    os.makedirs(d, exist_ok=True)
+    jobs = {}
+    with concurrent.futures.ProcessPoolExecutor(4, mp_context=multiprocessing.get_context('spawn')) as ex:
+        for tag in ('east', 'west'):
+            path = os.path.join(d, 'link.' + tag)
+            jobs[tag, 'client'] = ex.submit(_pipe_pair_end, 'client', path, tag, n)
+            jobs[tag, 'server'] = ex.submit(_pipe_pair_end, 'server', path, tag, n)
+        for (tag, kind), f in jobs.items():
+            try:
+                got = f.result(40)
+            except Exception as e:      # noqa: BLE001
+                fails.append(f'two pipes in one directory: {kind} of link.{tag}: {type(e).__name__}: {e}')
+                for g in jobs.values():
+                    g.cancel()
+                for pr in list(ex._processes.values()):
+                    pr.terminate()
+                return
+            want = [(tag, 's2c' if kind == 'client' else 'c2s', i) for i in range(n)]
+            if got != want:
+                fails.append(f'two pipes in one directory: the {kind} of link.{tag} received {got[:3]}... instead of its own peer\'s objects')
+
+
 if __name__ == '__main__':
     try:
         t = threading.Thread(target=socket_battery, daemon=True)
@@ -186,6 +231,7 @@ if __name__ == '__main__':
             fails.append('socket battery did not finish within 240 s (a request never got its response)')
         else:
             pipe_battery()
+            two_pipes_one_directory()
     finally:
         shutil.rmtree(tmp, ignore_errors=True)
     if fails:
